@@ -10,6 +10,7 @@ package jsonschema
 import (
 	"errors"
 	"fmt"
+	"math"
 	"net/url"
 	"reflect"
 	"regexp"
@@ -348,6 +349,23 @@ func (s *Schema) checkLocal(report func(error), infos map[*Schema]*resolvedInfo)
 	// As a special case, we can validate the 2020-12 meta-schema.
 	if s.Vocabulary != nil && s.Schema != draft202012SchemaVersion {
 		addf("cannot validate a schema with $vocabulary")
+	}
+
+	// A numeric keyword must hold a number. NaN and the infinities are not JSON
+	// numbers, and an instance cannot be compared with them.
+	for _, nk := range []struct {
+		name string
+		val  *float64
+	}{
+		{"multipleOf", s.MultipleOf},
+		{"minimum", s.Minimum},
+		{"maximum", s.Maximum},
+		{"exclusiveMinimum", s.ExclusiveMinimum},
+		{"exclusiveMaximum", s.ExclusiveMaximum},
+	} {
+		if nk.val != nil && (math.IsNaN(*nk.val) || math.IsInf(*nk.val, 0)) {
+			report(fmt.Errorf("jsonschema.Schema: %s is %v, which is not a finite number", nk.name, *nk.val))
+		}
 	}
 
 	info := infos[s]
